@@ -129,13 +129,16 @@ def on_beta_window(*paths):
 
 
 def describe(tracer):
-    out = {"exists": None, "paths": None, "error": None}
+    out = {"exists": None, "paths": None, "error": None, "observables": {}}
     try:
         sols = list(tracer.solutions)
         out["exists"] = bool(tracer.exists)
         out["paths"] = sols
     except Exception as e:       # noqa: BLE001 -- "reports neither" is itself the observation
         out["error"] = type(e).__name__ + ": " + str(e)[:120]
+        if type(tracer).__name__ == "BasicRayTracer":
+            from vt.checks.c01 import bracket_end_observables
+            out["observables"] = bracket_end_observables(tracer)
     return out
 
 
@@ -191,7 +194,7 @@ def run_case(case):
             d2 = describe(make(b, a))
     d3 = describe(make(R @ a + sh, R @ b + sh))
     for nm, d in (("as given", d1), ("swapped", d2), ("moved", d3)):
-        v.check(d["error"] is None, "tracer reports solutions or none for in-range points (no exception)", execution=nm, error=d["error"], **geo)
+        v.check(d["error"] is None, "tracer reports solutions or none for in-range points (no exception)", execution=nm, error=d["error"], **dict(geo, **d.get("observables", {})))
     if d1["error"] or d2["error"] or d3["error"]:
         return v.result(decided=True, nontrivial=False, sample=geo)
     s1, s2, s3 = d1["paths"], d2["paths"], d3["paths"]
@@ -355,7 +358,11 @@ def kf_horizontal(case, viol):
 
 def kf_basic_max_angle_nan(case, viol):
     d = viol["detail"]
-    return d.get("family") == "basic" and viol["clause"].startswith("tracer reports solutions or none") and "NaN" in str(d.get("error", "")) and not (d.get("sat0") and d.get("sat1"))
+    import math
+    confined = ("r_at_max_angle" in d and math.isnan(d["r_at_max_angle"]) and math.isfinite(d.get("r_just_below_max_angle", float("nan")))
+                and math.isfinite(d.get("r_at_half_max_angle", float("nan"))) and d["r_at_half_max_angle"] > 0)
+    return (d.get("family") == "basic" and viol["clause"].startswith("tracer reports solutions or none") and "NaN" in str(d.get("error", ""))
+            and not (d.get("sat0") and d.get("sat1")) and confined)
 
 
 def kf_basic_turning_depth_unresolved(case, viol):
@@ -363,7 +370,7 @@ def kf_basic_turning_depth_unresolved(case, viol):
     (z_turn_proximity) at which the numeric integrals stop short of the turning point, so the limits of the second leg are
     inverted, the r-function is negative at the end of the root bracket and brentq raises."""
     d = viol["detail"]
-    return (d.get("family") == "basic" and viol["clause"].startswith("tracer reports solutions or none") and "different signs" in str(d.get("error", ""))
+    return (d.get("family") == "basic" and viol["clause"].startswith("tracer reports solutions or none") and ("different signs" in str(d.get("error", "")) or "NaN" in str(d.get("error", "")))
             and d.get("turn_depth_error", 0.0) > d.get("z_turn_proximity", float("inf")))
 
 
